@@ -126,3 +126,49 @@ def install_body_io():
     from ombott.request_pkg import body_mixin
     body_mixin.BytesIO = PyBytesIO
     body_mixin.TemporaryFile = spool_file
+
+
+# --------------------------------------------------------------------------
+# simulated threads: threading.local as seen from ombott.common_helpers
+# --------------------------------------------------------------------------
+class SimThreads:
+    """current simulated thread id; switched by the harness at preemption points"""
+    cur = "T0"
+
+
+class SimLocal:
+    """threading.local: one attribute namespace per (object, current simulated thread)"""
+
+    def __init__(self):
+        object.__setattr__(self, "_ns", {})
+
+    def __getattr__(self, k):
+        ns = object.__getattribute__(self, "_ns").get(SimThreads.cur)
+        if ns is None or k not in ns:
+            raise AttributeError("'SimLocal' object (thread %s) has no attribute %r" % (SimThreads.cur, k))
+        return ns[k]
+
+    def __setattr__(self, k, v):
+        object.__getattribute__(self, "_ns").setdefault(SimThreads.cur, {})[k] = v
+
+    def __delattr__(self, k):
+        ns = object.__getattribute__(self, "_ns").get(SimThreads.cur)
+        if ns is None or k not in ns:
+            raise AttributeError(k)
+        del ns[k]
+
+
+class _SimThreadingModule:
+    local = SimLocal
+
+    def __getattr__(self, k):
+        import threading
+        return getattr(threading, k)
+
+
+def install_sim_threads():
+    """rebind `threading` inside ombott.common_helpers (ts_props stores, HeaderDict._ts) - this process only.
+    Only objects created afterwards use SimLocal."""
+    from ombott import common_helpers
+    common_helpers.threading = _SimThreadingModule()
+    SimThreads.cur = "T0"
